@@ -142,8 +142,8 @@ int qos_egress_prog(struct __sk_buff *skb) {
 	if ((void *)(ip + 1) > data_end)
 		return TC_ACT_OK;
 
-	/* Get destination IP (subscriber) */
-	__u32 dst_ip = ip->daddr;
+	/* Get destination IP (subscriber); userspace keys the map by the host-order integer (ipToKey) */
+	__u32 dst_ip = bpf_ntohl(ip->daddr);
 
 	/* Lookup subscriber's QoS policy */
 	struct token_bucket *tb = bpf_map_lookup_elem(&qos_egress, &dst_ip);
@@ -194,8 +194,8 @@ int qos_ingress_prog(struct __sk_buff *skb) {
 	if ((void *)(ip + 1) > data_end)
 		return TC_ACT_OK;
 
-	/* Get source IP (subscriber) */
-	__u32 src_ip = ip->saddr;
+	/* Get source IP (subscriber); userspace keys the map by the host-order integer (ipToKey) */
+	__u32 src_ip = bpf_ntohl(ip->saddr);
 
 	/* Lookup subscriber's QoS policy */
 	struct token_bucket *tb = bpf_map_lookup_elem(&qos_ingress, &src_ip);
